@@ -4,6 +4,7 @@ import (
 	"encoding/json"
 	"fmt"
 	"math/big"
+	"os"
 	"sort"
 	"strings"
 
@@ -61,6 +62,11 @@ func (p *evmprof) Configure(r *e.RNG, tier string) e.Config {
 			c.Flags["p_value"] = 0
 		}
 	}
+	if r.Chance(0.5) {
+		c.Flags["fic_staked"] = 1 // the contracts hold stake and earn rewards themselves
+	}
+	// fees are zero here, so only coinomics makes staking rewards non-zero
+	c.Coinomics = r.Chance(0.6)
 	return c
 }
 
@@ -396,6 +402,13 @@ func (p *evmprof) c05Differential(w *e.World, signer *e.Account, pr *Prog) *e.Vi
 	kind := "no-precompile-call-in-failed-frame"
 	if len(ff.inFailedFrame) > 0 {
 		kind = "failed-frame-contains-precompile-call"
+		if ff.enclosedInFailed == 0 {
+			// the only failed frames with a precompile call are precompile calls that
+			// failed themselves: they must not leave anything behind (their own work
+			// runs on a cached context since the C02-003 repair)
+			kind = "only-the-precompile-call-itself-failed"
+			w.Stats.Probe("precompile_call_failed_itself")
+		}
 	}
 	if len(diff) > 0 {
 		what := "inner-frame"
@@ -410,6 +423,13 @@ func (p *evmprof) c05Differential(w *e.World, signer *e.Account, pr *Prog) *e.Vi
 	}
 	w.Stats.State(fmt.Sprintf("failed=%d,top=%v,pcInFailed=%d", ff.innerFailed, topFailed, len(ff.inFailedFrame)))
 	return nil
+}
+
+func dumpFrames(frs []*evmprog.Frame, depth int) {
+	for _, fr := range frs {
+		fmt.Fprintf(os.Stderr, "%sframe kind=%d target=%s ok=%v ret=%x\n", strings.Repeat("  ", depth), fr.Node.Kind, fr.Node.Target, fr.Success, fr.Ret)
+		dumpFrames(fr.Sub, depth+1)
+	}
 }
 
 func mustJSON(v any) []byte { b, _ := json.Marshal(v); return b }
@@ -478,6 +498,10 @@ func (p *evmprof) deliverChecked(w *e.World, st *e.Step, bz []byte, pr *Prog, di
 		vmFailed = o.vmErr != "" || o.code != 0
 		if o.code == 0 {
 			collectFacts(pr.Nodes, o.frames, pr.FIC, o.vmErr != "", ff)
+		}
+		if os.Getenv("HAQQSIM_OPLOG") != "" {
+			fmt.Fprintf(os.Stderr, "prog code=%d vmErr=%q gas=%d log=%s\n", o.code, o.vmErr, o.gasUsed, trunc(res.Log, 300))
+			dumpFrames(o.frames, 1)
 		}
 	} else if direct != nil && res.Code == 0 {
 		if r, err := w.EthResponse(res); err == nil && !r.Failed() && direct.stateChanging() {
